@@ -1201,7 +1201,14 @@ func c15Check(s string, kind string, via int) *failure {
 		}
 		err = r.err
 	default:
-		r := implSat("MIT", []string{s})
+		// as an allowed entry: alone, or LAST behind valid entries that make the scanner rewrite its buffer (state carried from
+		// one entry's scan into the next must not move the offset: it refers to the entry the caller passed)
+		l := []string{s}
+		if via == 3 || via == 2 && kind != "replay" && res.Evaluations%2 == 0 {
+			l = []string{"MIT", "Apache-2.0-or-later", "ISC-or-later+", "GPL-2.0+", "(BSD-3-Clause-or-later)", s}
+			k.Extra["via"] = "3"
+		}
+		r := implSat("MIT", l)
 		if r.panicv != nil {
 			count("skipped_panic")
 			return nil
